@@ -4,7 +4,7 @@
 SPECIFICATION Spec
 CONSTANTS
   Handlers = {"h1", "h2"}
-  Seqs = {"1", "2"}
+  Seqs = {"1"}
   Allowed <- UpdateCmds
   Good = {"x0", "h1"}
   OsSupported = TRUE
